@@ -122,9 +122,11 @@ type Exec struct {
 	Concrete   term.Model // non-nil: v* primitives return these constants
 	Inc        *solver.Proc
 	UseSolver  bool
+	PruneCalls bool // solver-check every outcome returned to the harness function
 	MaxUnroll  int
 	MaxStates  int
 
+	liveCache   map[*ssa.Function]map[*ssa.BasicBlock]map[ssa.Value]bool
 	ipdCache    map[*ssa.Function]map[*ssa.BasicBlock]*ssa.BasicBlock
 	loopCache   map[*ssa.Function]map[*ssa.BasicBlock]bool
 	FnInstrs    map[string]int // instructions interpreted per function
@@ -144,6 +146,8 @@ type Exec struct {
 	randN       int
 	Trace       bool
 	FeasQ       int
+	FeasSecs    float64
+	FeasUnknown int
 	Deadline    time.Time
 	initHeap    *Heap
 }
@@ -178,18 +182,44 @@ func (ex *Exec) feasible(g *term.Term, useSolver bool) bool {
 	if f := factsOf(g); !f.consistent() || f.decide(g) == 0 {
 		return false
 	}
-	// conjunct-wise decision under the facts of the whole guard
-	if g.Op == term.OAnd {
+	return ex.solverFeasible(g, useSolver)
+}
+
+// feasibleWith reports whether cond may hold together with guard g, deciding cond under g's facts first.
+func (ex *Exec) feasibleWith(g, cond *term.Term, useSolver bool) bool {
+	if cond.IsFalse() || g.IsFalse() {
+		return false
+	}
+	switch factsOf(g).decide(cond) {
+	case 0:
+		return false
+	case 1:
+		return true
+	}
+	if cond.Op == term.OAnd {
 		f := factsOf(g)
-		for _, c := range g.Args {
+		for _, c := range cond.Args {
 			if f.decide(c) == 0 {
 				return false
 			}
 		}
 	}
+	// facts contributed by cond itself (e.g. a range for a value computed by a shift)
+	if f := factsOf(cond); !f.consistent() {
+		return false
+	}
+	return ex.solverFeasible(term.And(g, cond), useSolver)
+}
+
+func (ex *Exec) solverFeasible(g *term.Term, useSolver bool) bool {
 	if useSolver && ex.UseSolver && ex.Inc != nil {
 		ex.FeasQ++
+		t0 := time.Now()
 		a := ex.Inc.Check(ex.withDefs(g), nil, 2*time.Second)
+		ex.FeasSecs += time.Since(t0).Seconds()
+		if a.Res == solver.Unknown {
+			ex.FeasUnknown++
+		}
 		if a.Res == solver.Unsat {
 			return false
 		}
@@ -371,6 +401,104 @@ func (ex *Exec) analysis(fn *ssa.Function) (map[*ssa.BasicBlock]*ssa.BasicBlock,
 	ex.ipdCache[fn] = m
 	ex.loopCache[fn] = loops
 	return m, loops
+}
+
+// ---------- liveness ----------
+
+func trackable(v ssa.Value) bool {
+	switch v.(type) {
+	case *ssa.Const, *ssa.Global, *ssa.Function, *ssa.Builtin:
+		return false
+	}
+	return v != nil
+}
+
+// liveIn computes, per block, the SSA values live on entry (phi results of the block included).
+func (ex *Exec) liveIn(fn *ssa.Function) map[*ssa.BasicBlock]map[ssa.Value]bool {
+	if m, ok := ex.liveCache[fn]; ok {
+		return m
+	}
+	n := len(fn.Blocks)
+	use := make([]map[ssa.Value]bool, n)
+	def := make([]map[ssa.Value]bool, n)
+	phiUse := make([]map[*ssa.BasicBlock]map[ssa.Value]bool, n) // block -> pred -> values used by phis on that edge
+	var ops []*ssa.Value
+	for _, b := range fn.Blocks {
+		u, d := map[ssa.Value]bool{}, map[ssa.Value]bool{}
+		pu := map[*ssa.BasicBlock]map[ssa.Value]bool{}
+		for _, ins := range b.Instrs {
+			if phi, ok := ins.(*ssa.Phi); ok {
+				d[phi] = true
+				for i, e := range phi.Edges {
+					if trackable(e) {
+						p := b.Preds[i]
+						if pu[p] == nil {
+							pu[p] = map[ssa.Value]bool{}
+						}
+						pu[p][e] = true
+					}
+				}
+				continue
+			}
+			ops = ins.Operands(ops[:0])
+			for _, o := range ops {
+				if o != nil && *o != nil && trackable(*o) && !d[*o] {
+					u[*o] = true
+				}
+			}
+			if v, ok := ins.(ssa.Value); ok {
+				d[v] = true
+			}
+		}
+		use[b.Index], def[b.Index], phiUse[b.Index] = u, d, pu
+	}
+	in := make([]map[ssa.Value]bool, n)
+	for i := range in {
+		in[i] = map[ssa.Value]bool{}
+		for v := range use[i] {
+			in[i][v] = true
+		}
+	}
+	for changed := true; changed; {
+		changed = false
+		for i := n - 1; i >= 0; i-- {
+			b := fn.Blocks[i]
+			for _, s := range b.Succs {
+				add := func(v ssa.Value) {
+					if !def[i][v] && !in[i][v] {
+						in[i][v] = true
+						changed = true
+					}
+				}
+				for v := range in[s.Index] {
+					if _, isPhi := v.(*ssa.Phi); isPhi && def[s.Index][v] {
+						continue
+					}
+					add(v)
+				}
+				for v := range phiUse[s.Index][b] {
+					add(v)
+				}
+			}
+		}
+	}
+	m := map[*ssa.BasicBlock]map[ssa.Value]bool{}
+	for _, b := range fn.Blocks {
+		l := in[b.Index]
+		for _, ins := range b.Instrs {
+			if phi, ok := ins.(*ssa.Phi); ok {
+				l[phi] = true
+			} else {
+				break
+			}
+		}
+		m[b] = l
+	}
+	if ex.liveCache == nil {
+		ex.liveCache = map[*ssa.Function]map[*ssa.BasicBlock]map[ssa.Value]bool{}
+	}
+	ex.liveCache[fn] = m
+	return m
 }
 
 // ---------- value lookup ----------
@@ -685,7 +813,7 @@ func (ex *Exec) runAt(fr *frame, st *State, b *ssa.BasicBlock, idx int, stop *ss
 				for _, s := range sts {
 					out = append(out, ex.runAt(fr, s, b, i+1, stop)...)
 				}
-				return ex.mergeStates(fr, out)
+				return ex.mergeStates(fr, out, stop)
 			}
 			break
 		}
@@ -704,7 +832,7 @@ func (ex *Exec) branch(fr *frame, st *State, b *ssa.BasicBlock, c *term.Term, st
 	conds := [2]*term.Term{c, term.Not(c)}
 	var feas [2]bool
 	for k := 0; k < 2; k++ {
-		feas[k] = ex.feasible(term.And(st.G, conds[k]), useSolver)
+		feas[k] = ex.feasibleWith(st.G, conds[k], useSolver)
 	}
 	if visits+1 > ex.MaxUnroll && feas[0] && feas[1] {
 		abort("UNWIND-INCOMPLETE", "branch at %s block %d (%s) still two-way feasible after %d visits", fr.fn, b.Index, ex.pos(b.Instrs[len(b.Instrs)-1]), ex.MaxUnroll)
@@ -735,7 +863,7 @@ func (ex *Exec) branch(fr *frame, st *State, b *ssa.BasicBlock, c *term.Term, st
 	if J == nil {
 		return nil
 	}
-	merged := ex.mergeStates(fr, arrived)
+	merged := ex.mergeStates(fr, arrived, J)
 	for _, m := range merged {
 		// the region opened by this branch is closed: nesting depth goes back to what it was
 		if visits == 0 {
@@ -751,7 +879,7 @@ func (ex *Exec) branch(fr *frame, st *State, b *ssa.BasicBlock, c *term.Term, st
 	for _, m := range merged {
 		out = append(out, ex.runAt(fr, m, J, 0, stop)...)
 	}
-	return ex.mergeStates(fr, out)
+	return ex.mergeStates(fr, out, stop)
 }
 
 func (ex *Exec) pos(ins ssa.Instruction) string {
@@ -822,7 +950,7 @@ func samePanics(a, b []panicEntry) bool {
 	return true
 }
 
-func (ex *Exec) tryMergeStates(fr *frame, a, b *State) (*State, bool) {
+func (ex *Exec) tryMergeStates(fr *frame, a, b *State, live map[ssa.Value]bool) (*State, bool) {
 	if len(a.F.Defers) != len(b.F.Defers) || !samePanics(a.Panics, b.Panics) {
 		return nil, false
 	}
@@ -830,6 +958,9 @@ func (ex *Exec) tryMergeStates(fr *frame, a, b *State) (*State, bool) {
 	m := &merger{c: sel, base: fr.base, rho: map[int]int{}, rhoInv: map[int]int{}, ha: a.H, hb: b.H}
 	env := make(map[ssa.Value]Value, len(a.F.Env))
 	for k, va := range a.F.Env {
+		if live != nil && !live[k] {
+			continue
+		}
 		vb, ok := b.F.Env[k]
 		if !ok {
 			env[k] = va
@@ -837,12 +968,16 @@ func (ex *Exec) tryMergeStates(fr *frame, a, b *State) (*State, bool) {
 		}
 		v, ok := m.val(va, vb)
 		if !ok {
+			ex.tracef("merge fail in %s: env %s: %T %v vs %T %v", fr.fn.Name(), k.Name(), va, va, vb, vb)
 			return nil, false
 		}
 		env[k] = v
 	}
 	var bOnly []ssa.Value
 	for k := range b.F.Env {
+		if live != nil && !live[k] {
+			continue
+		}
 		if _, ok := a.F.Env[k]; !ok {
 			bOnly = append(bOnly, k)
 		}
@@ -869,6 +1004,7 @@ func (ex *Exec) tryMergeStates(fr *frame, a, b *State) (*State, bool) {
 	}
 	h, ok := m.heaps()
 	if !ok {
+		ex.tracef("merge fail in %s: heap", fr.fn.Name())
 		return nil, false
 	}
 	for _, k := range bOnly {
@@ -887,15 +1023,19 @@ func (ex *Exec) tryMergeStates(fr *frame, a, b *State) (*State, bool) {
 	return &State{G: g, H: h, F: &FrameState{Env: env, Defers: defers, Unroll: unroll}, Panics: a.Panics}, true
 }
 
-func (ex *Exec) mergeStates(fr *frame, in []*State) []*State {
+func (ex *Exec) mergeStates(fr *frame, in []*State, at *ssa.BasicBlock) []*State {
 	if len(in) <= 1 {
 		return in
+	}
+	var live map[ssa.Value]bool
+	if at != nil {
+		live = ex.liveIn(fr.fn)[at]
 	}
 	var out []*State
 	for _, s := range in {
 		done := false
 		for i, o := range out {
-			if m, ok := ex.tryMergeStates(fr, o, s); ok {
+			if m, ok := ex.tryMergeStates(fr, o, s, live); ok {
 				out[i] = m
 				done = true
 				break
